@@ -102,7 +102,7 @@ T("fixes.delete_unused_functions_and_classes",
   # reached only through globals()
   "def helper():\n    return 'h'\nprint(globals()['helper']())\n")
 T("fixes.undefine_unused_variables",
-  "def f(a):\n    x = a + 1\n    y = a.pop()\n    return a\nprint(f([1, 2]))\n",
+  "def f(a):\n    x = a + [1]\n    y = a.pop()\n    return a\nprint(f([1, 2]))\n",
   "def f():\n    x = 1\n    x = 2\n    return x\nprint(f())\n",
   "def f(p):\n    a, b = p\n    c = d = p[0]\n    return b\nprint(f((1, 2)))\n",
   # the unused name is read through locals()/eval
@@ -508,7 +508,7 @@ T("abstractions.create_abstractions",
 
 T("symbolic_math.simplify_boolean_expressions",
   "def f(x, y):\n    return (x and False and y), (x or y) and (x or y), (x or x or x), (x > 2 or x > 3), (x > 2 and x > 3), (x == 8 or x >= 3)\nprint(f(0, 1), f(5, 0), f(3, 3), f(8, []), f(2.5, ''))\n",
-  "def f(x):\n    return (x and not x), (x or not x), (x <= 5 or x >= 3), (x > 7 and x < 3), (x == 2 or x != 2)\nprint(f(0), f(5), f(2), f(''), f(4.5))\n",
+  "def f(x):\n    return (x and not x), (x or not x), (x <= 5 or x >= 3), (x > 7 and x < 3), (x == 2 or x != 2)\nprint(f(0), f(5), f(2), f(-1), f(4.5))\n",
   "n = float('nan')\nprint((n <= 5) or (n >= 3), (n == 2) or (n != 2), n > 2 or n > 3)\n",
   "def t(v):\n    print('t', v)\n    return v\nprint(t(1) and t(0) and t(1) and not t(1), t(0) or t(0))\n")
 T("symbolic_math.simplify_boolean_expressions_symmath",
